@@ -1258,16 +1258,25 @@ class RpcServer:
         state.bind_call_state(result.call_state)
         cancelled = False
 
-        # Write header IPC stream before the main output stream
-        if info.header_type is not None:
-            _write_stream_header(
-                transport.writer, result.header, self._external_config, sink=sink, method_name=info.name
-            )
-
-        input_reader = ValidatedReader(ipc.open_stream(transport.reader), self._ipc_validation)
-
         prev_input: AnnotatedBatch | None = None
         try:
+            # Opening the stream is part of the dispatch: a peer that goes
+            # away after the request (or a header that cannot be written)
+            # fails here, and the call must still be logged and its hooks ended.
+            try:
+                # Write header IPC stream before the main output stream
+                if info.header_type is not None:
+                    _write_stream_header(
+                        transport.writer, result.header, self._external_config, sink=sink, method_name=info.name
+                    )
+                input_reader = ValidatedReader(ipc.open_stream(transport.reader), self._ipc_validation)
+            except BaseException as exc:
+                _hook_exc = exc
+                status = "error"
+                error_type = type(exc).__name__
+                error_message = str(exc)
+                raise
+
             with new_ipc_stream(transport.writer, output_schema) as output_writer:
                 sink.flush_contents(output_writer, output_schema)
                 cumulative_bytes = 0
